@@ -11,6 +11,7 @@ import (
 	"sync/atomic"
 
 	"github.com/omec-project/upf-epc/pfcpiface"
+	"github.com/prometheus/client_golang/prometheus"
 )
 
 // hooks is the agent-side end of the control channel: it reports scheduling points, parks
@@ -40,6 +41,7 @@ func installHooks() *hooks {
 
 	h := &hooks{conn: c, gates: map[string]bool{}, parked: map[int64]chan struct{}{}}
 	pfcpiface.VerifPoint = h.point
+	initTuning()
 
 	go h.serve()
 
@@ -143,10 +145,43 @@ func (h *hooks) serve() {
 				out = p.VerifSnapshot()
 			}
 
+			out["gauge"] = sessionsGauge()
+			out["seidDraws"] = seidDraws()
+
 			b, _ := json.Marshal(out)
 			h.send("SNAP " + string(b))
 		default:
-			tune(f)
+			h.tune(f)
 		}
 	}
+}
+
+// sessionsGauge sums the pfcp_sessions gauge over its labels (-1 if it is not registered).
+func sessionsGauge() int {
+	mfs, err := prometheus.DefaultGatherer.Gather()
+	if err != nil {
+		return -1
+	}
+
+	for _, mf := range mfs {
+		if mf.GetName() != "pfcp_sessions" {
+			continue
+		}
+
+		total := 0.0
+		for _, m := range mf.GetMetric() {
+			total += m.GetGauge().GetValue()
+		}
+
+		return int(total)
+	}
+
+	return 0
+}
+
+func seidDraws() int {
+	seids.mu.Lock()
+	defer seids.mu.Unlock()
+
+	return seids.draws
 }
